@@ -39,6 +39,8 @@ Section AlmFista.
   Definition fo_grad_psi (y Σ : list T) (_ : fcounters) (x : list T) : list T := fst (te_grad_psi Pb prov x y Σ).
 
   (* one inner solve as the outer loop sees it *)
+  (* ir_stop: ALMSolver::stop() sets ALM's own flag and the inner solver's flag in the same call, so the one oracle stop_req serves both:
+     the outer loop reads its flag after the inner solve, i.e. at the cumulative counters the solve hands on *)
   Definition finner (w : fcounters) (i : nat) (x y Σ : list T) (tol : T) (errz : list T)
       : option (inner_res (T:=T) * list T * fresult (T:=T) * fcounters) :=
     let r := fista (fo_psi_grad y Σ) (fo_psi_yhat y Σ) fo_grad_L (fo_grad_psi y Σ) Clb Cub l1
@@ -47,11 +49,13 @@ Section AlmFista.
     match r with
     | FDone o =>
         Some ({| ir_status := alm_status_of (fo_status o); ir_eps := fo_eps o; ir_err := Some (fo_errz o);
-                 ir_y := Some (fo_y o); ir_iters := fo_iterations o; ir_oot := outer_oot i |},
+                 ir_y := Some (fo_y o); ir_iters := fo_iterations o; ir_oot := outer_oot i;
+                 ir_stop := stop_req (fcadd w (fo_cnt o)) |},
               fo_x o, r, fcadd w (fo_cnt o))
     | FNotFiniteL L =>
         (* return Stats{.status = NotFinite}: nothing written, ε = inf; the evaluations of the Lipschitz estimate happened *)
-        Some ({| ir_status := NotFinite; ir_eps := ninf; ir_err := None; ir_y := None; ir_iters := 0; ir_oot := outer_oot i |},
+        Some ({| ir_status := NotFinite; ir_eps := ninf; ir_err := None; ir_y := None; ir_iters := 0; ir_oot := outer_oot i;
+                 ir_stop := stop_req (fcadd w (snd (finit_L (fo_psi_grad y Σ) (fo_grad_psi y Σ) (fwith_opts tol) x))) |},
               x, r, fcadd w (snd (finit_L (fo_psi_grad y Σ) (fo_grad_psi y Σ) (fwith_opts tol) x)))
     | FOutOfFuel => None
     end.
